@@ -4,11 +4,16 @@
 (* every fragment start, every landing token x candidate names.  Checks the  *)
 (* walk (one step per token, as the code iterates) against FirstPair.        *)
 EXTENDS NameResolve, Json
-CONSTANTS MaxFrags
-Frags == { FUNCTION, <<32>>, <<97>>, <<98, 36>>, <<233>>, <<119987, 97>>, <<15247>>, <<40>>, <<97, 8205, 98>>, <<123>>,
+CONSTANTS MaxFrags, Wide
+\* Wide = FALSE (quick tier): one representative per character class; Wide = TRUE adds second representatives
+FragsNarrow == { FUNCTION, <<32>>, <<97>>, <<233>>, <<119987, 97>>, <<40>>, <<97, 8205, 98>>, <<8472>>, <<97, 2366>> }
+NamesNarrow == { <<97>>, <<233>>, <<119987, 97>>, <<97, 8205, 98>>, <<97, 46, 98>>, <<49, 97>>, <<8472>>, <<97, 2366>>, <<2366, 97>> }
+FragsWide == { FUNCTION, <<32>>, <<97>>, <<98, 36>>, <<233>>, <<119987, 97>>, <<15247>>, <<40>>, <<97, 8205, 98>>, <<123>>,
            <<8472>>, <<97, 2366>> }            \* an Other_ID_Start character; a letter followed by a combining mark
-Names == { <<97>>, <<98, 36>>, <<233>>, <<119987, 97>>, <<15247>>, <<97, 8205, 98>>, <<97, 46, 98>>, <<49, 97>>,
+NamesWide == { <<97>>, <<98, 36>>, <<233>>, <<119987, 97>>, <<15247>>, <<97, 8205, 98>>, <<97, 46, 98>>, <<49, 97>>,
            <<8472>>, <<97, 2366>>, <<2366, 97>> }      \* the last one starts with a mark: not an identifier
+Frags == IF Wide THEN FragsWide ELSE FragsNarrow
+Names == IF Wide THEN NamesWide ELSE NamesNarrow
 VARIABLES phase, line, starts, i0, name, k, found
 vars == <<phase, line, starts, i0, name, k, found>>
 Units(s) == FoldLeft(LAMBDA a, c : a + U16w(c), 0, s)
